@@ -17,6 +17,20 @@ theorem layout_eq_spec : ∀ k : Kind, k.fields = Spec.fields k.typ := by
 theorem fixed_size_eq_spec : ∀ k : Kind, ∀ s, Spec.fixedSize k.typ = some s → k.desc = sizedDesc s := by
   intro k s h; cases k <;> simp [Spec.fixedSize, Kind.typ] at h <;> subst h <;> rfl
 
+/-- the embedded VBE control / mode blocks: the packed Rust structs place every field at the VBE 3.0 offset -/
+theorem vbe_layout_eq_spec : vbeControlFields = Spec.vbeControl ∧ vbeModeFields = Spec.vbeMode := by decide
+
+theorem vbe_fields_inside : ∀ f ∈ vbeControlFields ++ vbeModeFields, f.1 + f.2 ≤ 784 ∧ (f.2 = 1 ∨ f.2 = 2 ∨ f.2 = 4) := by decide
+
+/-- every VBE block field decodes to the little-endian value at its specified offset, inside the 784-byte tag -/
+theorem vbe_field_decodes (area : Bytes) (v : View) (hfit : v.off + v.sov ≤ area.length) (hsov : 784 ≤ v.sov) :
+    ∀ f ∈ Spec.vbeControl ++ Spec.vbeMode, rdW (v.bytes area) f.1 f.2 = .ok (leW area (v.off + f.1) f.2) := by
+  intro f hf
+  rw [← vbe_layout_eq_spec.1, ← vbe_layout_eq_spec.2] at hf
+  have := vbe_fields_inside f hf
+  have hw : f.2 = 1 ∨ f.2 = 2 ∨ f.2 = 4 ∨ f.2 = 8 := by rcases this.2 with h | h | h <;> simp [h]
+  exact rdW_slice area v.off v.sov f.1 f.2 hw (by omega) hfit
+
 /-- every plain field lies inside the fixed part of its struct -/
 theorem fields_inside : ∀ k : Kind, ∀ f ∈ k.fields, f.2.1 + f.2.2 ≤ k.desc.fixed ∧ (f.2.2 = 1 ∨ f.2.2 = 2 ∨ f.2.2 = 4 ∨ f.2.2 = 8) := by
   intro k; cases k <;> simp [Kind.fields, Kind.desc, sizedDesc, dstDesc, networkDesc]
